@@ -137,6 +137,11 @@ let () =
     pb (check_arrays g tb ce nterm); pb (check_kinds g tb); pb (check_sprime g);
     pb (check_nullable_first g ce nterm); pb (check_init ce);
     pb (check_items g tb ce nterm); pb (check_rows g tb ce nterm));
+  (* termok: the termination condition of Parse/TermCheck.v on the loaded tables *)
+  reg "termok" (fun c ->
+    let id = int c in let nst = nat c in
+    let tb = Hashtbl.find tabs id in
+    pb (term_ok tb nst (term_fuel tb nst)));
   reg "parse" (fun c ->
     let id = int c in let eb = bool c in let rc = bool c in let fuel = nat c in
     let w = list z c in
